@@ -398,6 +398,7 @@ def rule_slot_exhaustion(ctx):
         r.check(guarded, fnb.id, "unguarded-encode", "re-encoding happens only when the flag is set", loc=fnb.loc())
     # assumptions recomputed in each query
     n = 0
+    types_seen = set()
     for imp in dyn_impls(prog):
         sadt = prog.adt(imp.get("self_adt") or "")
         if not sadt:
@@ -411,10 +412,12 @@ def rule_slot_exhaustion(ctx):
             for s in b.calls():
                 if callee_matches(callee_of(s), r"SatSolver::solve_under_assumptions$"):
                     n += 1
+                    types_seen.add(sadt["path"])
                     _, calls, _ = data_deps(b, s.node["args"][1])
                     ok = any(strip_generics(callee_name(callee_of(c)) or "") == opath + "::assumptions" for c in calls)
                     r.check(ok, b.id, "stale-assumptions", "assumptions are recomputed from the framework inside the query", "the query does not recompute the attack assumptions from the current framework", s.loc())
-    r.floor(n, 3, "SAT calls of the attack-assumption solvers")
+    r.note("%d SAT calls of the attack-assumption solvers analysed" % n)
+    r.floor(len(types_seen), 2, "attack-assumption solver types whose SAT calls were analysed")
 
 
 # ------------------------------------------------------------------------------------------
